@@ -769,9 +769,15 @@ def extract_fn(gen, f, probe=False):
   s = f.sig if region else sig.s
   s2 = re.sub(r"^\s*(pub(\([a-z]+\))?\s+)?", "", s)
   for old, new in f.sig_sub:
-    if old not in s2:
-      raise VxError("signature anchor lost in %s::%s: %r" % (f.file, f.name, old))
-    s2 = s2.replace(old, new)
+    if not isinstance(old, str):
+      if not old.search(s2):
+        raise VxError("signature anchor lost in %s::%s: %r" % (f.file, f.name, old.pattern))
+      s2 = old.sub(new, s2)
+      old = old.pattern
+    else:
+      if old not in s2:
+        raise VxError("signature anchor lost in %s::%s: %r" % (f.file, f.name, old))
+      s2 = s2.replace(old, new)
     gen.drops.append({"rule": "R5", "at": "%s:%d" % (where, src.line_of(ls)), "what": "signature: %s -> %s" % (old, new)})
   for mp in f.mut_params:
     if not re.search(r"\bmut\s+%s\s*:" % re.escape(mp), s2):
